@@ -25,7 +25,9 @@ def file_hash(p):
 def run(ctx):
     import nir
     from nir.serialization import read_version
+    from canon import canon_node
     rng = ctx.rng
+    cases, obs, reqs = [], [], []
     tmpdir = tempfile.mkdtemp(prefix="nirverif-c15-", dir="/var/tmp")
     try:
         for i in range(ctx.n(60)):
@@ -44,6 +46,7 @@ def run(ctx):
             n_ops = rng.randrange(3, 9 if ctx.tier == "quick" else 16)
             ops, last = [], None
             history = []
+            mobs = []          # what the model's fs_history must print
             fds0 = open_fds()
             sig = {"site": "history"}
             ok = True
@@ -57,6 +60,7 @@ def run(ctx):
                     try:
                         nir.write(target, pool[k][1])
                         last = k
+                        mobs.append({"done": True, "open": 0})
                     except Exception as e:  # noqa
                         ctx.violate({"op": "history", "ops": history}, "write to an existing path failed",
                                     {**sig, "what": "write-raised"}, observed=f"{type(e).__name__}: {e}")
@@ -73,6 +77,7 @@ def run(ctx):
                     if file_hash(base) != h0:
                         ctx.violate({"op": "history", "ops": history}, "a read altered the file", {**sig, "what": "read-writes"})
                         ok = False; break
+                    mobs.append({"g": canon_node(got), "open": 0})
                     d = compare.graph_diff(pool[last][1], got)
                     if d:
                         ctx.violate({"op": "history", "ops": history, "graphs": [p[0] for p in pool]},
@@ -83,6 +88,7 @@ def run(ctx):
                     history.append(["read_version"])
                     try:
                         v = read_version(target)
+                        mobs.append({"v": v, "open": 0})
                         if v != nir.version:
                             ctx.violate({"op": "history", "ops": history}, "read_version wrong", {**sig, "what": "version"}, observed=v)
                             ok = False; break
@@ -97,6 +103,10 @@ def run(ctx):
                                 {**sig, "what": "fd-leak"}, observed=sorted(leaked))
                     ok = False; break
             ctx.case({"op": "history", "ops": history, "n_graphs": len(pool)}); ctx.count("histories"); ctx.count("ops", len(history))
+            if ok and len(mobs) == len(history):
+                c = {"op": "fs_history", "version": nir.version, "graphs": [p[0] for p in pool],
+                     "ops": [[h[0]] + ([h[1]] if h[0] == "write" else []) for h in history]}
+                cases.append(c); obs.append({"outs": mobs}); reqs.append(c)
             if ok and os.path.exists(base):
                 # rename and delete succeed
                 try:
@@ -128,6 +138,7 @@ def run(ctx):
                                 observed=f"{type(e).__name__}: {e}")
                 finally:
                     f.close()
+        ctx.compare("histories", cases, obs, reqs)
     finally:
         import shutil
         shutil.rmtree(tmpdir, ignore_errors=True)
